@@ -144,6 +144,8 @@ Definition race_pairb (thi thj : thread) : bool :=
 Inductive prot :=
 | PLock (m : N)            (* every access holds m: writes and atomics the write lock, reads either *)
 | PConfined (lab : nat)    (* only the (single) thread labelled lab touches it *)
+| PHandoff (ip ic : nat)   (* happens-before by spawn: pool index ip owns it until it executes `ASpawn ic`
+                              (go f()), afterwards only the spawned thread ic touches it; nobody else ever *)
 | PReadOnly                (* never written (after construction) *)
 | PAtomic.                 (* only accessed through sync/atomic *)
 
@@ -154,16 +156,19 @@ Definition access_ok (P : pmap) (lab : nat) (w r : list N) (a : action) : bool :
   | ARead x => match P x with
                | Some (PLock m) => memN m w || memN m r
                | Some (PConfined t) => Nat.eqb t lab
+               | Some (PHandoff _ _) => true
                | Some PReadOnly => true
                | Some PAtomic => false
                | None => false end
   | AWrite x => match P x with
                 | Some (PLock m) => memN m w
                 | Some (PConfined t) => Nat.eqb t lab
-                 | _ => false end
+                | Some (PHandoff _ _) => true
+                | _ => false end
   | AAtomic x => match P x with
                  | Some (PLock m) => memN m w
                  | Some (PConfined t) => Nat.eqb t lab
+                 | Some (PHandoff _ _) => true
                  | Some PAtomic => true
                  | _ => false end
   | _ => true
@@ -186,9 +191,31 @@ Definition labels_of (ths : list (bool * nat * list action)) : list nat := map (
 Definition unique_label (lab : nat) (labs : list nat) : Prop :=
   forall i j, nth_error labs i = Some lab -> nth_error labs j = Some lab -> i = j.
 
+(* --- happens-before by spawn (checked on the whole pool, not per thread) *)
+Definition accesses (x : N) (a : action) : bool :=
+  match a with ARead y | AWrite y | AAtomic y => N.eqb x y | _ => false end.
+Definition spawns (c : nat) (a : action) : bool :=
+  match a with ASpawn t => Nat.eqb t c | _ => false end.
+(* the parent's program: no access to x once `ASpawn c` has been executed (sp = it has been) *)
+Fixpoint hs_ok (x : N) (c : nat) (sp : bool) (p : list action) : bool :=
+  match p with
+  | [] => true
+  | a :: r => (if accesses x a then negb sp else true) && hs_ok x c (sp || spawns c a) r
+  end.
+Fixpoint indexed {A} (i : nat) (l : list A) : list (nat * A) :=
+  match l with [] => [] | a :: r => (i, a) :: indexed (S i) r end.
+Definition handoff_ok (x : N) (ip ic : nat) (ths : list (bool * nat * list action)) : bool :=
+  negb (Nat.eqb ip ic) &&
+  match nth_error ths ic with Some (run, _, _) => negb run | None => true end &&
+  forallb (fun '(j, (_, _, p)) =>
+             if Nat.eqb j ip then hs_ok x ic false p
+             else negb (existsb (spawns ic) p) && (Nat.eqb j ic || negb (existsb (accesses x) p)))
+          (indexed O ths).
+
 Definition well_locked (P : pmap) (ths : list (bool * nat * list action)) : Prop :=
   (forall run lab p, In (run, lab, p) ths -> scan P lab [] [] p = true) /\
-  (forall x t, P x = Some (PConfined t) -> unique_label t (labels_of ths)).
+  (forall x t, P x = Some (PConfined t) -> unique_label t (labels_of ths)) /\
+  (forall x ip ic, P x = Some (PHandoff ip ic) -> handoff_ok x ip ic ths = true).
 
 (* ---------------------------------------------------------------- access tables *)
 (* One entry per access SITE of the source: location, kind, role of the code that contains the site,
